@@ -241,6 +241,22 @@ func Formats(c Case) (out Case) {
 				evs = append(evs, M{"op": "skip", "why": "cost function mentions a variable the parsed problem does not have"})
 				continue
 			}
+			if boolean(e, "printedBefore") && boolean(c, "hasObj") && printer == "pb.PBString" {
+				// the same Problem value was printed earlier, when it had ANOTHER cost function; it is then given
+				// the cost function of the case (what an earlier rendering leaves behind shows in the next one)
+				ol, ow := ints(obj(c, "obj"), "lits"), ints(obj(c, "obj"), "w")
+				lits, w2 := make([]solver.Lit, len(ol)), make([]int, len(ol))
+				for i, l := range ol {
+					lits[i] = solver.IntToLit(int32(l))
+					w2[i] = ow[len(ow)-1-i] + 1 + i
+				}
+				func() {
+					defer func() { recover() }()
+					pb.SetCostFunc(lits, w2)
+					_ = pb.PBString()
+				}()
+				pb.SetCostFunc(lits, cp(ow))
+			}
 			hasObj, objO := objDump(pb)
 			r["orig"], r["hasObj"], r["obj"] = orig, hasObj, objO
 			r["re"], r["hasObjRe"], r["objRe"] = emptyDump(), false, M{"lits": []int{}, "w": []int{}}
